@@ -134,13 +134,13 @@ pub fn dims_of(recs: &[Rec]) -> (u32, u32, u16, u16) {
     b.unwrap_or((0, 0, 0, 0))
 }
 
-pub fn workbook_for(recs: Vec<Rec>, dims: bool, variant: u64) -> Workbook {
+pub fn workbook_for(recs: Vec<Rec>, dims: bool, variant: u64, sst: &[String]) -> Workbook {
     let mut wb = Workbook::default();
     wb.xfs = vec![0, 2, 0];
     if variant % 4 == 1 {
         wb.date1904 = Some(false);
     }
-    wb.sst = Sst::Strings(vec![XlStr::new(str_of("s0")), XlStr::new(str_of("s1"))]);
+    wb.sst = Sst::Strings(sst.iter().map(|id| if id.is_empty() { XlStr::new("") } else { XlStr::new(str_of(id)) }).collect());
     let d = if dims { Some(dims_of(&recs)) } else { None };
     let main = Sheet { name: XlStr::new("Sheet1"), dims: d, recs };
     let other = Sheet { name: XlStr::new("Other"), dims: None, recs: vec![Rec::Number { r: 3, c: 4, xf: 0, v: 42.5 }] };
@@ -241,7 +241,8 @@ pub fn replay_cells(args: &Args) -> i32 {
         };
         let ncells = b["ideal"]["cells"].as_array().map_or(0, |a| a.len());
         rep.case(&b["tokens"], ncells > 0);
-        let wb = workbook_for(recs, dims, idx);
+        let sst: Vec<String> = b["sst"].as_array().map(|a| a.iter().map(|x| x.as_str().unwrap_or("").to_string()).collect()).unwrap_or_else(|| vec!["s0".into(), "s1".into()]);
+        let wb = workbook_for(recs, dims, idx, &sst);
         let file = biff::xls_bytes(&wb);
         let obs = read_sheet(&file, "Sheet1");
         let ideal = &b["ideal"];
@@ -405,7 +406,17 @@ pub fn drive_cells(args: &Args) -> i32 {
         };
         let (c0, c1) = if run < n && r1 - r0 > 5000 { (c0.max(c1.saturating_sub(6)), c1) } else { (c0, c1) };
         let nstr = rng.gen_range(1..40usize);
-        let strings: Vec<String> = (0..nstr).map(|i| format!("str{}-{}", i, "x".repeat(i % 7))).collect();
+        // empty shared strings at the first, some middle and the last index; cells refer to the others
+        let nstr = nstr + 2;
+        let strings: Vec<String> = (0..nstr)
+            .map(|i| if i == 0 || i + 1 == nstr || (i % 5 == 3) { String::new() } else { format!("str{}-{}", i, "x".repeat(i % 7)) })
+            .collect();
+        let pick_str = |rng: &mut StdRng| loop {
+            let i = rng.gen_range(0..nstr);
+            if !strings[i].is_empty() {
+                break i;
+            }
+        };
         let want = rng.gen_range(1..=max_cells);
         let area = (r1 - r0 + 1) as u64 * (c1 - c0 + 1) as u64;
         let density = (want as f64 / area as f64).min(0.9);
@@ -479,13 +490,13 @@ pub fn drive_cells(args: &Args) -> i32 {
                         adv = len;
                     }
                     11..=12 => {
-                        let isst = rng.gen_range(0..nstr);
+                        let isst = pick_str(&mut rng);
                         recs.push(Rec::LabelSst { r: r as u16, c: c as u16, xf, isst: isst as u32 });
                         events.push(json!({"e": "tok", "k": "labelsst", "r": r, "c": c, "isst": isst}));
                         payloads.push(((r, c), json!({})));
                     }
                     13 => {
-                        let i = rng.gen_range(0..nstr);
+                        let i = pick_str(&mut rng);
                         let hi = rng.gen_bool(0.5);
                         recs.push(Rec::Label { r: r as u16, c: c as u16, xf, s: XlStr::with_storage(&strings[i], hi) });
                         events.push(json!({"e": "tok", "k": "label", "r": r, "c": c, "s": format!("str{}", i), "hi": hi}));
@@ -522,7 +533,7 @@ pub fn drive_cells(args: &Args) -> i32 {
                                 recs.push(Rec::ShrFmla { r0: r as u16, r1: r as u16, c0: c as u8, c1: c as u8 });
                                 events.push(json!({"e": "tok", "k": "shrfmla"}));
                             }
-                            let i = rng.gen_range(0..nstr);
+                            let i = pick_str(&mut rng);
                             let hi = rng.gen_bool(0.5);
                             recs.push(Rec::StringRec { s: XlStr::with_storage(&strings[i], hi) });
                             events.push(json!({"e": "tok", "k": "string", "s": format!("str{}", i), "hi": hi}));
@@ -554,7 +565,7 @@ pub fn drive_cells(args: &Args) -> i32 {
         wb.sst = Sst::Strings(strings.iter().map(|s| XlStr::new(s)).collect());
         wb.sheets = vec![Sheet { name: XlStr::new("Sheet1"), dims: if dims { Some(dims_of(&recs)) } else { None }, recs }];
         let file = biff::xls_bytes(&wb);
-        writeln!(out, "{}", json!({"e": "reset", "run": run, "sst": (0..nstr).map(|i| format!("str{}", i)).collect::<Vec<_>>(), "dims": dims})).unwrap();
+        writeln!(out, "{}", json!({"e": "reset", "run": run, "sst": (0..nstr).map(|i| if strings[i].is_empty() { String::new() } else { format!("str{}", i) }).collect::<Vec<_>>(), "dims": dims})).unwrap();
         for ev in &events {
             writeln!(out, "{}", ev).unwrap();
         }
